@@ -6,6 +6,22 @@ hooks_commits = subprocess.run(["git","-C","/repo","log","--format=%h %s"],captu
 hook_commits = [l.split()[0] for l in hooks_commits if l.split(" ",1)[1].startswith("verif:")]
 
 CHECKS = {
+ "C01": dict(engine="E2 e2e", category="model_checking", technique="explicit-state exploration of debugger command histories on the real Debugger and kernel, reference = independent single-step trace",
+   text="Every history over {start/continue, add/remove of 3 candidate breakpoints (raw address, the instruction executed right after it, file:line or function)} up to depth 4 (quick) / 6 (thorough) is executed by the real Debugger over generated libc-free Rust programs (loop, recursion, generics, closure); after each continue the stop must be exactly the next arrival of the reference single-step trace at an enabled address (reported pc = PTRACE_GETREGS pc = located trace index), hooks fire once, and the run ends with the native exit code.",
+   note="Trusted: reference tracer (own ptrace single-stepper, 3 runs agree), state location by (pc, sp, register hash, stack+data hash). Which address a file:line/function designator resolves to is taken from the debugger's answer (that choice is C04's subject). PIE only; quick = 4 programs x 2 toolchains.",
+   design="2/E2, 3/C01"),
+ "C02": dict(engine="E2 e2e", category="model_checking", technique="explicit-state exploration of command histories incl. steps, restart and failing commands; invariant on every state",
+   text="Same state space as C01 with stepi/step/next/finish, restart and a failing break in the alphabet (depth 3 quick / 4 thorough); after every command the executable's text read from /proc/pid/mem differs from the ELF exactly at the user's breakpoints (+ entry point), and every history that runs to exit produces the native stdout and exit code.",
+   note="call/watch/detach are not in this alphabet yet; text comparison covers the main executable's sections.",
+   design="3/C02"),
+ "C03": dict(engine="E2 e2e", category="model_checking", technique="explicit-state exploration of step-command sequences from every reached stop, oracle = reference trace with shadow call stack + independent line-table reader",
+   text="From `main` (and with a user breakpoint inside the stepped ranges) every sequence of stepi/step/next/finish/continue up to depth 5 (quick) / 7 is executed; each landing position is located in the reference trace and checked against the weak specification of the property (stepi = exactly one instruction; finish = first index with smaller depth; next/step = a statement boundary no later than the first boundary on another line of the function's own file in the same activation, next never deeper, reported place = real pc).",
+   note="Weak spec on purpose (DESIGN 3/C03): boundaries inside inlined subroutines or in other files are neither required nor forbidden; stepping in code without debug information is unspecified. Four genuine defects are recorded as known findings.",
+   design="3/C03, App.C"),
+ "C05": dict(engine="E2 e2e", category="model_checking", technique="explicit-state exploration; backtrace compared with the reference tracer's shadow call stack at every reached state",
+   text="At every state reached by histories over breakpoints/continue/step commands (depth 4 quick / 6) the backtrace's frame ips must equal pc + the return addresses of the calls really in progress (call/ret tracked by the reference tracer), for all frames up to main; frame_info CFA/return address of frame 0 must match the real stack.",
+   note="Frame selection (variable reads per activation) and multi-thread backtraces are not covered yet. Frames below main (_start, no CFI) are not compared.",
+   design="3/C05"),
  "C07": dict(engine="E4 pure", category="exploration", technique="bounded-exhaustive enumeration of expression ASTs through the real parser",
    text="Every Dqe AST up to operator depth 3 (quick) / 4 (thorough) over 3 bases x 19 operators, and every index literal of nesting <= 2, is printed by an independent printer in two renderings and must parse back to the same AST with the real chumsky parser. This decides the 'parsing is a function of the text / documented precedence' half of the property exhaustively within the bound.",
    note="Trusted: the harness's printer implements the documented precedence. The 'meaning' half (evaluation against program values) is decided by the e2e part when present in evidence.parts; if absent it is not claimed.",
@@ -54,6 +70,7 @@ m = {
  },
  "engines": [
    {"name":"E3 sched","path":"/verif/harness/src/sched.rs","serves_properties":["C12"],"kind_free_text":"hand-rolled CHESS: real threads parked at feature-gated schedule points, preemption-bounded DFS, worker subprocess per subtree"},
+   {"name":"E2 e2e","path":"/verif/harness/src/{e2x,e2w,isession,reftrace,dwarfref,corpus,c01}.rs","serves_properties":["C01","C02","C03","C05"],"kind_free_text":"explicit-state exploration of command histories: one interactive worker process per session running the real Debugger over generated libc-free debuggees; reference single-step tracer; canonical-state deduplication"},
    {"name":"E4 pure","path":"/verif/harness/src/{c07,c14,c17}.rs","serves_properties":["C07","C14","C17"],"kind_free_text":"bounded-exhaustive / explicit-state exploration of in-process components against reference models"},
  ],
  "checks": checks,
